@@ -49,6 +49,19 @@ type c02Case struct {
 	nontrivial               bool
 }
 
+// hTimeRules is a scheduled upgrade: `before` until `at` (ms), `after` from then on.
+type hTimeRules struct {
+	at            int64
+	before, after *genesis.Rules
+}
+
+func (f *hTimeRules) GetRules(t int64) chain.Rules {
+	if t < f.at {
+		return f.before
+	}
+	return f.after
+}
+
 // hMempool records what the builder restores.
 type hMempool struct {
 	*mempool.Mempool[*chain.Transaction]
@@ -209,6 +222,22 @@ func c02Run(metrics *chain.ChainMetrics, c *c02Case, cores int, r *verifh.Run) (
 			dupSet.Add(tx.GetID())
 		}
 	}
+	// History before the build: the txs were admitted 10 s ago, under the rule set that was in
+	// force then (a scheduled upgrade of the metering constants activated 6 s ago, before the
+	// parent block). Admission meters and pre-executes each tx, as PreExecutor.PreExecute does.
+	old := *rules
+	old.BaseComputeUnits += 20
+	old.StorageKeyReadUnits += 3
+	old.StorageValueReadUnits++
+	old.StorageKeyAllocateUnits += 7
+	old.StorageKeyWriteUnits += 2
+	old.StorageValueWriteUnits += 4
+	rf := &hTimeRules{at: now - 6000, before: &old, after: rules}
+	admitted := now - 10000
+	admFees := internalfees.NewManager(feeRaw).ComputeNext(admitted, rf.GetRules(admitted).(*genesis.Rules))
+	for _, tx := range txs {
+		_ = tx.PreExecute(ctx, admFees, hBalance, rf.GetRules(admitted), db, admitted)
+	}
 	mp := &hMempool{Mempool: mempool.New[*chain.Transaction](trace.Noop, 100_000, 100_000), done: make(chan struct{})}
 	mp.Add(ctx, txs)
 	vw := &validitywindowtest.MockTimeValidityWindow[*chain.Transaction]{
@@ -223,7 +252,7 @@ func c02Run(metrics *chain.ChainMetrics, c *c02Case, cores int, r *verifh.Run) (
 		},
 	}
 	cfg := chain.Config{TargetBuildDuration: time.Hour, TransactionExecutionCores: cores, StateFetchConcurrency: cores, TargetTxsSize: c.cap}
-	builder := chain.NewBuilder(trace.Noop, &genesis.ImmutableRuleFactory{Rules: rules}, &logging.NoLog{}, hMeta, hBalance, mp, vw, metrics, cfg)
+	builder := chain.NewBuilder(trace.Noop, rf, &logging.NoLog{}, hMeta, hBalance, mp, vw, metrics, cfg)
 	pblk, err := chain.NewStatelessBlock(ids.Empty, parentTs, c.parentHeight, nil, ids.Empty, nil)
 	if err != nil {
 		return "err-parent", "-", "err-parent", "!", nil
@@ -320,7 +349,7 @@ func c02Run(metrics *chain.ChainMetrics, c *c02Case, cores int, r *verifh.Run) (
 			if vc > 1 {
 				w = workers.NewParallel(vc, 100)
 			}
-			o, err := c01NewProcessor(metrics, rules, w, vc, vc, strict).Execute(ctx, db, chain.NewExecutionBlock(parsed), true)
+			o, err := c01NewProcessorRF(metrics, rf, w, vc, vc, strict).Execute(ctx, db, chain.NewExecutionBlock(parsed), true)
 			w.Stop()
 			vch <- vres{o, err}
 		}()
